@@ -177,7 +177,7 @@ def exact_of(v):
     return dict(t="val", M=gq.enc([[G(Fr(float(np.real(x))), Fr(float(np.imag(x)))) for x in r] for r in v]))
 
 
-EXN = {ValueError: "ValueError", TypeError: "TypeError", IndexError: "IndexError", ZeroDivisionError: "ZeroDivisionError"}
+EXN = {ValueError: "ValueError", TypeError: "TypeError", IndexError: "IndexError"}
 
 
 def run_impl(case):
